@@ -1,7 +1,7 @@
 ------------------------------- MODULE Judge -------------------------------
 (* Trace validator: every recorded event of the real ommx API must be a step the specification allows.
    The recording (one JSON object per line) is read from the file named by the environment variable TRACE.
-   For every rejected event a line  <<"BAD", index, case, {failed clause names}>>  is printed; validation
+   For every rejected event a line  "BAD <index> <failed clause names>"  is printed; validation
    resynchronises on the next event (events carry their full pre/post state), so the rest of the trace is
    still checked.  A final  <<"DONE", number of events, number rejected>>  is printed when the whole trace
    was consumed; the POSTCONDITION guards against TLC stopping early. *)
@@ -20,12 +20,14 @@ Clauses(e) ==
     [] e.ev \in MiscEvents     -> ClausesMisc(e)
     [] OTHER -> [ known_event |-> FALSE ]
 Failed(e) == LET c == Clauses(e) IN { k \in DOMAIN c : ~c[k] }
+RECURSIVE JoinNames(_)
+JoinNames(S) == IF S = {} THEN "" ELSE LET x == CHOOSE y \in S : TRUE IN x \o (IF S = {x} THEN "" ELSE "," \o JoinNames(S \ {x}))
 VARIABLES l, nbad
 Init == l = 1 /\ nbad = 0
 Next == /\ l <= Len(Rec)
         /\ LET fl == Failed(Rec[l]) IN
              nbad' = IF fl = {} THEN nbad
-                     ELSE IF PrintT(<<"BAD", l, Rec[l].case, fl>>) THEN nbad + 1 ELSE nbad
+                     ELSE IF PrintT("BAD " \o ToString(l) \o " " \o JoinNames(fl)) THEN nbad + 1 ELSE nbad
         /\ l' = l + 1
 Done == l = Len(Rec) + 1 => PrintT(<<"DONE", Len(Rec), nbad>>)
 Consumed == TLCGet("stats").diameter = Len(Rec) + 1
